@@ -96,6 +96,9 @@ type Path struct {
 	onceDone  map[string]bool
 	bounds    map[*Term]int
 	nonneg    map[*Term]bool // bignonneg.go
+	eqParent  map[*Term]*Term // eqcanon.go
+	noFork    bool           // speculative arm execution (mergemem.go): solver decisions cancel the merge
+	storeLog  *[]storeRec
 	concreteChoices map[string]string
 	choiceNames []string
 	lastPanic *goPanic
@@ -138,6 +141,7 @@ func (p *Path) assertPC(c *Term) {
 		return
 	}
 	p.pc = append(p.pc, c)
+	p.noteEqs(c) // eqcanon.go
 	p.sol.Assert(c)
 }
 
@@ -174,6 +178,9 @@ func (p *Path) verifyLast() {
 func (p *Path) branch(c *Term) bool {
 	if c.IsConst() {
 		return c.IsTrue()
+	}
+	if p.noFork {
+		panic(mergeFail{})
 	}
 	if d, ok, last := p.nextRecorded(); ok {
 		if d.Kind != 'b' {
@@ -219,6 +226,9 @@ func (p *Path) check(ok *Term, msg string) {
 			return
 		}
 		p.goPanicRuntime(msg)
+	}
+	if p.noFork {
+		panic(mergeFail{})
 	}
 	if d, rec, last := p.nextRecorded(); rec {
 		if d.Kind != 'c' {
@@ -268,6 +278,9 @@ func (p *Path) check(ok *Term, msg string) {
 func (p *Path) concretize(t *Term, why string) *big.Int {
 	if t.IsConst() {
 		return t.Val
+	}
+	if p.noFork {
+		panic(mergeFail{})
 	}
 	for n := 0; ; n++ {
 		if n > p.hr.h.maxValues() {
